@@ -6,7 +6,7 @@ C12 — all dataplanes agree on the policy verdict.
 
 **Composition over one reference** (`dataplanes_agree_partial`): for one workload policy
 state and one packet of the common fragment, it chains
-  * a10's `C09.endpoint_chain_verdict` (evaluation of the RENDERED iptables/nftables endpoint,
+  * a10's `C09.endpoint_chain_verdict_core` (evaluation of the RENDERED iptables/nftables endpoint,
     group, policy and profile chains reaches `C09.endpointVerdict`),
   * `C11.polprog_verdict_partial` (the instructions of the BPF policy program, interpreted, end
     as the C11 reference verdict demands), and
@@ -251,7 +251,7 @@ theorem dataplanes_agree_partial
     (hshort : (flat (compile env.c (wlRules tiers profiles np))).length < env.c.trampolineStride)
     (prog : List Insn)
     (hi : instructions env.c (wlRules tiers profiles np) = some (some [prog]))
-    -- iptables/nftables side (hypotheses of `C09.endpoint_chain_verdict`)
+    -- iptables/nftables side (hypotheses of `C09.endpoint_chain_verdict_core`)
     (cfg : C08.Cfg) (mo : C08.MarksOK cfg) (vb : C09.VBits cfg) (vd : C09.VD cfg) (e : C09.EpCfg) (env9 : Netfilter.Env)
     (pkt9 : Netfilter.Packet) (chains : List Netfilter.Chain) (name : String) (tiers9 : List C09.Tier)
     (profiles9 : List String) (polRules : String → List Policy.Rule) (out : String → C09.PolOutcome) (F : Nat)
@@ -284,7 +284,7 @@ theorem dataplanes_agree_partial
       -- app-policy: OK iff `v` is allow
       checkTiers ((pktOfD st).proto.toNat : Int) profiles tiers = some (v == .allow) := by
   refine ⟨bpfVerdict env (wlRules tiers profiles np) (pktOfD st), ?_, ?_, ?_⟩
-  · have h09 := C09.endpoint_chain_verdict cfg mo vb vd e env9 pkt9 chains name tiers9 profiles9 polRules out F m
+  · have h09 := C09.endpoint_chain_verdict_core cfg mo vb vd e env9 pkt9 chains name tiers9 profiles9 polRules out F m
       h1 h2 h3 h4 h5 h6 h7 h8 h9 h10 o1 o2 o3
     rw [hT, hP, endpointVerdict_bridge env9 he pkt9 env (pktOfD st) hv hpr profiles hcp tiers hct] at h09
     have heq : bpfVerdict env (wlRules tiers profiles np) (pktOfD st) =
